@@ -563,6 +563,41 @@ fn check_endpoint_roundtrip(o: &Oracle, ep: &Ep, comps: &Value) -> Vec<String> {
             }
         })
     });
+    // a valid encoding with an additional item of an unknown typecode decodes to a key that
+    // re-encodes to the same string and holds the same known components
+    let r2 = guarded(|| {
+        let extra: Vec<u8> = o.seed.iter().cycle().skip(3).take(37).cloned().collect();
+        with_params!(o.net, p => match ep {
+            Ep::Fvk(k) => {
+                let (_, c) = unified::Ufvk::decode(&k.encode(p)).map_err(|e| format!("{e}"))?;
+                let mut items = c.items_as_parsed().to_vec();
+                items.push(unified::Fvk::Unknown { typecode: 0x0123, data: extra });
+                let s = unified::Ufvk::try_from_items(items).map_err(|e| format!("{e}"))?.encode(&o.net.ty());
+                let d = UnifiedFullViewingKey::decode(p, &s)?;
+                let m = check_endpoint_material(o, &Ep::Fvk(&d), comps);
+                Ok::<_, String>((d.encode(p) == s, m))
+            }
+            Ep::Ivk(k) => {
+                let (_, c) = unified::Uivk::decode(&k.encode(p)).map_err(|e| format!("{e}"))?;
+                let mut items = c.items_as_parsed().to_vec();
+                items.push(unified::Ivk::Unknown { typecode: 0x0123, data: extra });
+                let s = unified::Uivk::try_from_items(items).map_err(|e| format!("{e}"))?.encode(&o.net.ty());
+                let d = UnifiedIncomingViewingKey::decode(p, &s)?;
+                let m = check_endpoint_material(o, &Ep::Ivk(&d), comps);
+                Ok::<_, String>((d.encode(p) == s, m))
+            }
+        })
+    });
+    match r2 {
+        Err(p) => bad.push(format!("panic decoding a key with an unknown item: {p}")),
+        Ok(Err(e)) => bad.push(format!("a key string with an unknown item does not decode: {e}")),
+        Ok(Ok((same, m))) => {
+            if !same {
+                bad.push("a key string with an unknown item does not re-encode to the same string".into());
+            }
+            bad.extend(m.into_iter().map(|x| format!("with an unknown item: {x}")));
+        }
+    }
     match r {
         Err(p) => bad.push(format!("panic in encode/decode: {p}")),
         Ok(Err(e)) => bad.push(format!("own encoding does not decode: {e}")),
@@ -780,6 +815,7 @@ struct Inputs {
     cases_by_comps: HashMap<String, Vec<Value>>,
     codec: Vec<Value>,
     gap: Vec<Value>,
+    meet: Vec<Value>,
     all_sigs: BTreeSet<String>,
 }
 
@@ -1254,6 +1290,22 @@ fn section_codec(o: &Oracle, usk0: &UnifiedSpendingKey, inp: &Inputs, out: &mut 
             },
             Err(e) => bad.push(format!("from_orchard_fvk failed: {e:?}")),
         }
+        // a unified address with a script-hash receiver keeps it through the string form
+        match UnifiedAddress::from_receivers(ua.orchard().cloned(), ua.sapling().cloned(), Some(tsh)) {
+            None => bad.push("from_receivers refused shielded + P2SH receivers".into()),
+            Some(u2) => {
+                let s = with_params!(o.net, p => u2.encode(p));
+                let d = with_params!(o.net, p => <UnifiedAddress as AddressCodec<_>>::decode(p, &s));
+                let c = unified::Address::decode(&s).ok().map(|(_, c)| c.items());
+                let has_p2sh = c.map(|v| v.iter().any(|r| matches!(r, unified::Receiver::P2sh(h) if *h == sh))).unwrap_or(false);
+                if d.as_ref().ok() != Some(&u2) || d.map(|x| x.transparent().cloned()) != Ok(Some(tsh)) || !has_p2sh {
+                    bad.push("a unified address with a P2SH receiver does not round-trip".into());
+                }
+            }
+        }
+        if UnifiedAddress::from_receivers(None, None, Some(ta)).is_some() {
+            bad.push("from_receivers built a unified address without a shielded receiver".into());
+        }
         let mut n = 0u64;
         for rec in &inp.codec {
             n += 1;
@@ -1484,6 +1536,70 @@ fn section_gap(o: &Oracle, usk0: &UnifiedSpendingKey, inp: &Inputs, cfg: &Cfg, k
 }
 
 // ------------------------------------------------------------------------------------------------
+// combining requests (MEET table); independent of any key
+
+fn lvl_name(r: ReceiverRequirement) -> &'static str {
+    match r {
+        ReceiverRequirement::Require => "Require",
+        ReceiverRequirement::Allow => "Allow",
+        ReceiverRequirement::Omit => "Omit",
+    }
+}
+
+fn section_meet(o: &Oracle, inp: &Inputs, out: &mut Out) {
+    for rec in &inp.meet {
+        out.count("meet_cases");
+        let mk = |r: &Value| ReceiverRequirements::new(lvl(r["o"].as_str().unwrap()), lvl(r["s"].as_str().unwrap()), lvl(r["t"].as_str().unwrap()));
+        let (a, b) = match (mk(&rec["a"]), mk(&rec["b"])) {
+            (Ok(a), Ok(b)) => (a, b),
+            _ => {
+                out.bad(o, "meet", "a constructible request was refused".into(), json!({"meet": rec}));
+                continue;
+            }
+        };
+        let want = &rec["res"];
+        let got = guarded(|| a.intersect(&b));
+        let levels = guarded(|| {
+            [a.orchard().intersect(b.orchard()).ok(), a.sapling().intersect(b.sapling()).ok(), a.p2pkh().intersect(b.p2pkh()).ok()]
+        });
+        let bad = match got {
+            Err(p) => Some(format!("intersect panicked: {p}")),
+            Ok(Ok(r)) => {
+                if want["k"] != "ok" {
+                    Some(format!("intersect succeeded, the specification gives {}", want["k"]))
+                } else if [lvl_name(r.orchard()), lvl_name(r.sapling()), lvl_name(r.p2pkh())]
+                    != [want["o"].as_str().unwrap(), want["s"].as_str().unwrap(), want["t"].as_str().unwrap()]
+                {
+                    Some(format!(
+                        "intersect gave ({}, {}, {}), the specification gives {}",
+                        lvl_name(r.orchard()), lvl_name(r.sapling()), lvl_name(r.p2pkh()), want
+                    ))
+                } else {
+                    None
+                }
+            }
+            Ok(Err(e)) => {
+                if want["k"] == "ok" { Some(format!("intersect failed ({e:?}), the specification gives {want}")) } else { None }
+            }
+        };
+        let bad = bad.or_else(|| match levels {
+            Err(p) => Some(format!("ReceiverRequirement::intersect panicked: {p}")),
+            Ok(l) => {
+                let conflict = l.iter().any(|x| x.is_none());
+                if conflict != (want["k"] == "conflict") {
+                    Some("ReceiverRequirement::intersect conflicts differ from the specification".into())
+                } else {
+                    None
+                }
+            }
+        });
+        if let Some(b) = bad {
+            out.bad(o, "meet", b, json!({"meet": rec}));
+        }
+    }
+}
+
+// ------------------------------------------------------------------------------------------------
 
 #[derive(Clone)]
 struct KeySpec {
@@ -1525,6 +1641,9 @@ fn run_key(ks: &KeySpec, key_idx: usize, inp: &Inputs, cfg: &Cfg) -> (Out, BTree
     }
     if cfg.on("bip44") {
         section_bip44(&o, &usk0, &mut out);
+    }
+    if cfg.on("meet") && key_idx == 0 {
+        section_meet(&o, inp, &mut out);
     }
     if cfg.on("codec") {
         section_codec(&o, &usk0, inp, &mut out, &lines);
@@ -1597,6 +1716,7 @@ fn main() {
         cases_by_comps,
         codec: tables.iter().filter(|t| t["table"] == "CODEC").cloned().collect(),
         gap: tables.iter().filter(|t| t["table"] == "GAP").cloned().collect(),
+        meet: tables.iter().filter(|t| t["table"] == "MEET").cloned().collect(),
         all_sigs,
     };
     let cfg = Cfg {
